@@ -16,7 +16,7 @@ m = {
            "source_commits": [], "add_only": True},
  "engines": [
   {"name": "pyvc", "path": "pyvc/", "serves_properties": [p for p in ALL if p in CONFIG and CONFIG[p].get("proof")],
-   "kind_free_text": "contract-based deductive verifier for a Python subset: symbolic execution of the real AST of /repo (re-read every run), sidecar contracts and loop invariants, VCs discharged by z3 5.1 / cvc5; two lemma files checked by Lean 4 / Mathlib (C12, C14)"},
+   "kind_free_text": "contract-based deductive verifier for a Python subset: symbolic execution of the real AST of /repo (re-read every run), sidecar contracts and loop invariants, VCs discharged by z3 5.1 / cvc5; lemma files checked by Lean 4 / Mathlib (C08, C12, C13, C14)"},
   {"name": "rtc", "path": "rtc/", "serves_properties": [p for p in ALL if p in CONFIG and CONFIG[p].get("rtc")],
    "kind_free_text": "bounded stand-in + replay harness: run-time contracts and independent oracles evaluated on the real functions over a stated bound (never counted as proved)"}],
  "checks": [], "not_applicable": [],
